@@ -16,5 +16,11 @@ import Tie.Flags
 #print axioms Sourcer.C03_sep_trailer
 #print axioms Sourcer.C03_sep_keeps_separators
 #print axioms Sourcer.C03_no_effect_on_failure
+#print axioms Sourcer.C04_every_literal_skips
+#print axioms Sourcer.C04_ignored_rule
+#print axioms Sourcer.C04_leading_skip
+#print axioms Sourcer.C04_no_other_skip_point
+#print axioms Sourcer.C04_literal_then_skip
+#print axioms Sourcer.C04_skip_maximal
 #print axioms Tie.implFlags_sound -- module Tie.Flags
 #print axioms Tie.impl_refines -- module Tie.Flags
